@@ -86,7 +86,7 @@ def check_R(ref, J, exact=True):
     for k, x in enumerate(un):
         if J.index[x] != k: return "index[%d] = %d but unoccupied_set[%d] = %d" % (x, J.index[x], k, x)
     e1, e2 = ref.E(), J.E()
-    if (e1 != e2) if exact else (abs(e1 - e2) > FTOL * (1 + abs(e1))): return "E: reference %r, compiled %r" % (e1, e2)
+    if (not mcsys.eqf(e1, e2)) if exact else (abs(e1 - e2) > FTOL * (1 + abs(e1))): return "E: reference %r, compiled %r" % (e1, e2)
     return None
 
 
@@ -161,9 +161,22 @@ def jstate_term(J):
 
 
 def jobs_term(J):
+    # E(): the exact (coded) energy of the interactions that are on, after checking that the float E() represents it
+    ex = mcsys.exact_E(J, J.clustercount, SCALE)
+    if not mcsys.consistent(J.E(), ex, SCALE):
+        raise Violation("compiled E() = %r but the interactions that are switched on sum to %s" % (J.E(), "inf" if abs(ex) >= mcsys.INF_Z else ex / SCALE),
+                        "c35-energy", dict(occ=np.asarray(J.occ).tolist()))
     return "(mkJobs (K:=Zring) %s %s (N %d) (N %d) (NL %s) (NL %s) %s %s)" % (
         mcsys.zl(J.occ), mcsys.zl(J.clustercount), J.Nocc, J.Nunocc, mcsys.zl(J.occupied_set[:J.Nocc]),
-        mcsys.zl(J.unoccupied_set[:J.Nunocc]), mcsys.zl(J.index), mcsys.zz(mcsys.intval(SCALE * J.E(), "E()")))
+        mcsys.zl(J.unoccupied_set[:J.Nunocc]), mcsys.zl(J.index), mcsys.zz(ex))
+
+
+def swap_exact(ref, i, j):
+    """exact (coded, x SCALE) energy change of occupying i and unoccupying j, from the definition"""
+    cc = np.array(ref.clustercount).copy()
+    for m in ref.siteinteract[i][:ref.Ninteract[i]]: cc[m] -= 1
+    for m in ref.siteinteract[j][:ref.Ninteract[j]]: cc[m] += 1
+    return mcsys.exact_E(ref, cc, SCALE) - mcsys.exact_E(ref, ref.clustercount, SCALE)
 
 
 def jtrans_term(J):
@@ -206,9 +219,18 @@ def history(ck, rng, S, nops, trans_broken, exact=True, record=True, started=Non
     def trial_ij(i, j):
         hist.append(["trial", i, j])
         d1, d2 = ref.deltaE_trial((i,), (j,)), J.deltaE_trial(i, j)
-        if (d1 != d2) if exact else (abs(d1 - d2) > FTOL * (1 + abs(d1))):
+        if (not mcsys.eqf(d1, d2)) if exact else (abs(d1 - d2) > FTOL * (1 + abs(d1))):
             raise Violation("deltaE_trial(%d,%d): reference %r, compiled %r" % (i, j, d1, d2), "c35-deltaE", dict(history=hist[-40:]))
-        if record: ev.append("(JTrial (K:=Zring) (N %d) (N %d) %s)" % (i, j, mcsys.zz(mcsys.intval(SCALE * d2, "deltaE"))))
+        if record:
+            if np.isfinite(d2):
+                ev.append("(JTrial (K:=Zring) (N %d) (N %d) %s)" % (i, j, mcsys.zz(mcsys.intval(SCALE * d2, "deltaE"))))
+            elif d2 == d2:        # +-inf: must be the sign of the exact change; the model gets the exact coded value
+                d = swap_exact(ref, i, j)
+                if not mcsys.consistent(d2, d, SCALE):
+                    raise Violation("deltaE_trial(%d,%d) = %r but the energy from the definition changes by %s" % (i, j, d2, d / SCALE),
+                                    "c35-deltaE", dict(history=hist[-40:]))
+                ev.append("(JTrial (K:=Zring) (N %d) (N %d) %s)" % (i, j, mcsys.zz(d)))
+            # (nan = inf - inf: an infinite interaction goes off while another comes on; nothing to tell the model)
         return d2
 
     def ask_probes():
@@ -279,7 +301,13 @@ def history(ck, rng, S, nops, trans_broken, exact=True, record=True, started=Non
                                         dict(history=hist[-40:]))
                 if ambiguous:            # float tier only: a threshold within rounding of dE; resynchronise the reference
                     ref.start(np.array(J.occ).copy())
-                if record:
+                if record and getattr(ref, "_verif_kind", "int") != "int":
+                    # extended values: a nan trial change (inf - inf) rejects the move in the code but is a finite number in the exact
+                    # arithmetic of the model; the batch is compared between the implementations only and the model is re-started
+                    cur = np.array(J.occ).copy()
+                    both(ref, J, lambda: ref.start(cur.copy()), lambda: J.start(cur), first(), "start()", hist)
+                    ev.append("(JStart (K:=Zring) %s %s)" % (mcsys.zl(cur), jobs_term(J)))
+                elif record:
                     ev.append("(JMC (K:=Zring) [%s] %s)" % (";".join("(N %d,N %d,%s)" % (occh[n], unch[n], mcsys.zz(mcsys.intval(SCALE * kt[n], "kTlogu")))
                                                                      for n in range(nm)), jobs_term(J)))
                 ntrivial += 1
@@ -313,7 +341,7 @@ def exhaustive(ck, rng, S, trans_broken):
         for i in un:
             for j in oc:
                 d1, d2 = ref.deltaE_trial((i,), (j,)), J.deltaE_trial(i, j)
-                if d1 != d2: raise Violation("deltaE_trial(%d,%d) at %s: reference %r, compiled %r" % (i, j, occ.tolist(), d1, d2),
+                if not mcsys.eqf(d1, d2): raise Violation("deltaE_trial(%d,%d) at %s: reference %r, compiled %r" % (i, j, occ.tolist(), d1, d2),
                                              "c35-deltaE", dict(occ=occ.tolist(), i=i, j=j))
                 both(ref, J, lambda: ref.update((i,), (j,)), lambda: J.update(i, j), "jit", "update(%d,%d)" % (i, j), [occ.tolist()])
                 d = check_R(ref, J)
@@ -405,6 +433,23 @@ def run(ck):
         ck.case(key=("history", S.label, len(ev), hash(tuple(ev)) & 0xffffffff), nontrivial=nt > 0,
                 kind="history:%s-first:%s" % (order, "started" if started is not None else "unstarted"),
                 sample={"system": S.label, "events": len(ev), "first_events": [e[:200] for e in ev[:3]]} if len(ck.samples) < 3 else None)
+    # ---- extended interaction values (+inf hard-core exclusion, 0): both samplers, and the model with +inf as a symbol ----------
+    next_ = 0
+    for name, setup, sup in [("chain", (2.1, 3, 1.1), (6, 1, 1)), ("fcc", (0.8, 3, 0.8), (2, 2, 2)), ("ladder", (1.6, 3, 1.2), (3, 2, 1)),
+                             ("chain3", (0.75, 3, 0.45), (3, 1, 1))][:ck.n(3, 4)]:
+        for vac in ((False,) if ck.quick else (False, True)):
+            S = mcsys.build(rng, name, setup, sup, vacancy=vac, jumps=False, vals="ext")
+            if S is None or S.Nsites - (S.vacancy >= 0) < 2: continue
+            try:
+                ev, nop, nt = history(ck, rng, S, ck.n(80, 250), trans_broken, started=mcsys.random_occ(rng, S),
+                                      order=("jit", "ref", "mixed")[next_ % 3])
+            except Violation as v:
+                ck.violation("%s [%s] (extended values)" % (v.what, S.label), dict(sysinfo(S), **v.detail), key=v.key)
+                continue
+            next_ += 1
+            items.append((S, ev)); nev_total += len(ev)
+            ck.case(key=("ext-history", S.label, len(ev), hash(tuple(ev)) & 0xffffffff), nontrivial=nt > 0, kind="history:extended-values")
+    ck.extra["extended_value_histories"] = next_
     # ---- bounded-exhaustive ------------------------------------------------------------------------
     nex, maxfree = 0, ck.n(6, 8)
     for name, setup, sup in plan:
